@@ -365,9 +365,50 @@ def r_alignment(c):
         raise AnalysisError(f"only {n} operand subscripts built from the pool (floor 2)")
 
 
+def r_identity_shortcuts(c):
+    """'nothing to do' shortcuts hand back their input unchanged only when EVERY
+    component is unchanged: the test in front of `return <parameter>` is all(...),
+    never any(...) (one pass-through axis does not make a substitution the identity)"""
+    m = c.model
+    n = 0
+    for mi, fd in m.all_functions(modules=[LC, "pytato.codegen", "pytato.array", "pytato.utils",
+                                           "pytato.transform"]):
+        params = {a.arg for a in fd.args.posonlyargs + fd.args.args + fd.args.kwonlyargs}
+        for i in ast.walk(fd):
+            t = None
+            if isinstance(i, ast.If) and i.body and isinstance(i.body[-1], ast.Return) \
+                    and isinstance(i.body[-1].value, ast.Name) and i.body[-1].value.id in params:
+                t = i.test
+            elif isinstance(i, ast.Return) and isinstance(i.value, ast.IfExp) \
+                    and isinstance(i.value.body, ast.Name) and i.value.body.id in params:
+                t = i.value.test
+            if not (isinstance(t, ast.Call) and isinstance(t.func, ast.Name)
+                    and t.func.id in ("all", "any") and t.args
+                    and isinstance(t.args[0], (ast.GeneratorExp, ast.ListComp))):
+                continue
+            n += 1
+            qn = m.qualname(fd).replace("pytato.", "", 1)
+            c.check(t.func.id == "all", "R01-TABLES", qn,
+                    f"identity-shortcut-needs-all:{m.frag(t, 50)}", m.loc(mi, i),
+                    f"`{m.frag(t, 70)}` hands the input back unchanged as soon as SOME component "
+                    "is unchanged: the components that do change are silently dropped (an inlined "
+                    "producer read through a one-axis slice or roll loses its index map)")
+    # the shared helper of the copy mappers quantifies over all entries as well
+    ei = m.func("pytato.array._entries_are_identical")
+    n += 1
+    c.check(any(isinstance(x, ast.Call) and isinstance(x.func, ast.Name) and x.func.id == "all"
+                for x in ast.walk(ei)) and not any(
+                    isinstance(x, ast.Call) and isinstance(x.func, ast.Name) and x.func.id == "any"
+                    for x in ast.walk(ei)), "R01-TABLES", "array._entries_are_identical",
+            "identity-shortcut-needs-all", m.loc("pytato.array", ei),
+            "_entries_are_identical no longer requires every entry to be identical")
+    if n < 2:
+        raise AnalysisError(f"only {n} identity shortcuts found (floor 2)")
+
+
 SPEC = Spec(
     prop="C01",
-    rules=[r_dispatch, r_tables, r_ctor_state, r_order, r_alignment],
+    rules=[r_dispatch, r_tables, r_ctor_state, r_order, r_alignment, r_identity_shortcuts],
     floors={"R01-DISPATCH": 28, "R01-TABLES": 18, "R01-CTOR-STATE": 36, "R01-ORDER": 12},
     explanation=(
         "Decides three structural clauses of C01, not the value clause. "
